@@ -1,2 +1,3 @@
 import ProfiVerif.Props.C09
 import ProfiVerif.Props.C10
+import ProfiVerif.Props.C16
